@@ -19,9 +19,9 @@ func init() {
 	core.Register(&core.Check{
 		ID:    "C05",
 		Level: "exploration",
-		Rule: "E-proc: histories that leave events and/or an error pending (burst larger than the buffer, rename-then-delete / rename-then-rmdir of watched files and directories with the reader held back, delete of a watched directory with contents, many watches, moves in from / out to / within with unmatched halves, a real queue overflow with the consumer gated until the burst is complete and the control calls started only once the reader has reached the overflow record) " +
+		Rule: "E-proc: histories that leave events and/or an error pending (burst larger than the buffer, rename-then-delete / rename-then-rmdir of watched files and directories with the reader held back, delete of a watched directory with contents, many watches, moves in from / out to / within with unmatched halves, watches spelled relative to the working directory that are then deleted/renamed, a real queue overflow with the consumer gated until the burst is complete and the control calls started only once the reader has reached the overflow record) " +
 			"x consumer behaviour {both channels, only Events, only Errors, neither, stops after k} x buffer {default,0,1,64,4096}; then a battery of control calls (Add of a new path, WatchList, Remove, 1-8 concurrent Close with Add/Remove/WatchList racing them, Close twice) each under a watchdog, with PRNG delays injected at the verif yield points. " +
-			"Structural oracle: the lock probe at every send must find the Watcher's lock free (or held by a tracked API call); behavioural oracle: a control call that has not returned at the watchdog is a violation only when the goroutine dump shows the deadlock signature (a send parked below handleEvent/AddWith with the lock held and the call parked in Mutex.Lock). " +
+			"Structural oracle: the lock probe at every send must find the Watcher's lock free (or held by a tracked API call); behavioural oracle: a control call that has not returned at the watchdog is a violation only when the goroutine dump shows the deadlock signature (a send parked below handleEvent/AddWith with the lock held and the call parked in Mutex.Lock; or the call parked on a channel/condition while the reader is parked in a send nobody receives; or - same state in two dumps 2 s apart - a goroutine running inside a lock-holding function while the call waits for the lock). " +
 			"distinct_nontrivial = distinct (history shape, consumer, buffer) cases in which >=1 send was probed",
 		Assumptions: []string{"'bounded time' is restated as: returned before the watchdog, or the dump decides; a bare watchdog expiry is inconclusive", "the reader goroutine and the tracked API calls are the only users of the lock"},
 		Batches:     func(t string) int { return map[string]int{"quick": 16, "thorough": 64}[t] },
@@ -31,7 +31,7 @@ func init() {
 	})
 }
 
-var c05shapes = []string{"burst", "rename-then-delete", "rename-then-rmdir", "delete-dir-with-contents", "many-watches", "overflow", "rename-delete-many", "moves-in-out-within"}
+var c05shapes = []string{"burst", "rename-then-delete", "rename-then-rmdir", "delete-dir-with-contents", "many-watches", "overflow", "rename-delete-many", "moves-in-out-within", "relative-paths"}
 var c05consumers = []string{"both", "only-events", "only-errors", "neither", "stops-after-k"}
 
 func runC05(c *core.Ctx) {
@@ -162,12 +162,16 @@ func c05Case(c *core.Ctx, rng *rand.Rand, dir string, idx int, a *apiTrack, st *
 		return e, ok, dmp
 	}
 	hung := func(what, dump string) bool {
-		cls := hangClass(dump)
+		cls, dump := persistentHangClass(dump)
 		if u := atomic.LoadInt64(&st.underLock) - under0; u > 0 {
 			c.Violate("send-under-lock", fmt.Sprintf("[%s] %d channel sends were performed while the Watcher's lock was held by the sender itself (no API call in flight); history %v", params, u, log), log)
 		}
 		if cls == "lock-leaked" {
 			c.Violate("lock-never-released", fmt.Sprintf("[%s] %s did not return: goroutines wait for the Watcher's lock and no goroutine is inside a function that holds it; history %v", params, what, log), dumpExcerpt(dump))
+		} else if cls == "lock-holder-busy" {
+			c.Violate("lock-held-without-progress", fmt.Sprintf("[%s] %s did not return: a goroutine keeps running inside a function that holds the Watcher's lock (same state in two dumps 2 s apart, after the %v watchdog) while the call waits for that lock; history %v", params, what, twin.WatchdogTimeout, log), dumpExcerpt(dump))
+		} else if cls == "api-waits-for-reader-parked-in-send" {
+			c.Violate("control-call-waits-for-consumption", fmt.Sprintf("[%s] %s did not return: it waits (not for the lock) for the reader, which is parked in a send that nobody receives; history %v", params, what, log), dumpExcerpt(dump))
 		} else if cls == "deadlock:send-under-lock+api-blocked" || cls == "send-under-lock" {
 			c.Violate("control-call-blocked-on-consumption", fmt.Sprintf("[%s] %s did not return: %s; history %v", params, what, cls, log), dumpExcerpt(dump))
 		} else {
@@ -238,6 +242,35 @@ func c05Case(c *core.Ctx, rng *rand.Rand, dir string, idx int, a *apiTrack, st *
 			case 1:
 				os.Rename(b, filepath.Join(un, fmt.Sprint("out", k))) // out: unmatched IN_MOVED_FROM
 			}
+		}
+		time.Sleep(time.Duration(rng.Intn(3)) * time.Millisecond)
+	case "relative-paths":
+		// watches spelled relative to the working directory (paths are stored as given), then deleted or
+		// renamed while the reader is held back: the reader's bookkeeping walks these spellings
+		c.Count("pending_error_histories", 1)
+		os.Mkdir(filepath.Join(base, "reld"), 0o755)
+		os.WriteFile(filepath.Join(sub, "rf"), nil, 0o644)
+		os.WriteFile(filepath.Join(base, "rg"), nil, 0o644)
+		os.Chdir(base)
+		rel := []string{"sub/rf", "./reld/", "rg", "sub/../sub/rf"}
+		for _, p := range rel {
+			p := p
+			api("Add("+p+")", func() error { return w.Add(p) })
+		}
+		os.Chdir("/")
+		os.Chmod(f, 0o600)
+		switch rng.Intn(3) {
+		case 0:
+			os.Remove(filepath.Join(sub, "rf"))
+			os.Remove(filepath.Join(base, "reld"))
+			os.Remove(filepath.Join(base, "rg"))
+		case 1:
+			os.Rename(filepath.Join(base, "rg"), filepath.Join(base, "rg2"))
+			os.Remove(filepath.Join(base, "rg2"))
+			os.Remove(filepath.Join(sub, "rf"))
+		default:
+			os.Remove(filepath.Join(base, "rg"))
+			os.Rename(filepath.Join(base, "reld"), filepath.Join(base, "reld2"))
 		}
 		time.Sleep(time.Duration(rng.Intn(3)) * time.Millisecond)
 	case "delete-dir-with-contents":
